@@ -694,6 +694,8 @@ class Grid(object):
             shutil.rmtree(self.base)
         os.makedirs(self.base)
         self.sched = Sched(chooser, fault_kinds, split)
+        if os.environ.get("VERIF_CPU"):              # env: experiments only; checks call sched.cpu_events() per case
+            self.sched.cpu_events()
         self.servers = []      # StorageServer
         self.fss = []          # FoolscapStorageServer
         self.ids = []
